@@ -1,6 +1,6 @@
 (* C03 — only fully valid blocks extend the chain; rejected blocks change nothing.  Statements only. *)
 From Coq Require Import List NArith Bool.
-From LE Require Import BFT.ForkChoice Exec.VerifyBlock Exec.Process Exec.ProcessProofs.
+From LE Require Import BFT.ForkChoice Exec.VerifyBlock Exec.Process Exec.ProcessProofs Exec.ProcessTrace Exec.ProcessTraceProofs.
 Import ListNotations.
 Local Open Scope N_scope.
 
@@ -46,16 +46,56 @@ Theorem C03_process_reject_no_change_partial : forall s b k p v x t, k <> TieBre
   accepted_p (fst (process s b k p v x t)) = false -> snd (process s b k p v x t) = s.
 Proof. exact process_reject_no_change_partial. Qed.
 
-(* In the tie-break branch the code deletes the tip before it verifies the competing block; when that block is rejected the
-   old tip is re-applied: chain and consensus store are restored, the finalized height does not decrease, but a Delete and a
-   New publication for the old tip have been emitted. *)
-Theorem C03_process_tiebreak_restores_state : forall s b p v x t r s',
+(* Tie-break branch, rejected competitor, old tip re-applied.  PARTIAL: the extra hypothesis [reexecution_deterministic] is an
+   ASSUMPTION about the environment (re-executing the deleted tip on the state it was deleted from gives the answers of its first
+   execution: same consensus store, precommitted height not above the stored finalized height, its state root is the
+   application's); it is not derived in the model, where execution answers are inputs.  Under it the node is EXACTLY as before
+   except for the publications Delete(old tip), New(old tip) (and ValidatorsChange again if the old tip changed the parameters). *)
+Theorem C03_process_tiebreak_restores_state_partial : forall s b p v x t r s' old rest,
+  rev (n_chain s) = old :: rest ->
   process s b TieBreak p v x t = (PTieRestored r, s') ->
-  xe_post_cs (te_old_x t) = n_cs s ->
-  n_chain s' = n_chain s /\ n_cs s' = n_cs s /\ n_finalized s <= n_finalized s' /\
-  exists old extra, n_emitted s' = n_emitted s ++ PDelete (h_id (b_header old)) :: extra /\
-                    In (PNew (h_id (b_header old)) (xe_nevents (te_old_x t))) extra.
-Proof. exact process_tiebreak_restores_state. Qed.
+  reexecution_deterministic s t old ->
+  s' = mkNode (n_chain s) (n_cs s) (n_finalized s)
+              (n_emitted s ++ [PDelete (h_id (b_header old)); PNew (h_id (b_header old)) (xe_nevents (te_old_x t))]
+                           ++ (if xe_params_changed (te_old_x t) then [PValidators] else []))
+              (n_app s).
+Proof. exact process_tiebreak_restores_state_partial. Qed.
+
+(* processValidated as ordered stages (Exec/ProcessTrace.v: a check followed by the effects performed right after it, in the
+   order of execute.go).  A block failing ANY check leaves no effect at all: no application commit (ABI Commit), no database
+   write, no cache push, no publication.  Unlike C03_reject_no_change this is a statement about the ORDER of the stage list: moving
+   the ABI commit (or the write) before a check makes it false. *)
+Theorem C03_no_effect_before_last_check : forall s b v x cache_ok r acc,
+  pv_trace s b v x cache_ok = (TRejected r, acc) -> acc = [].
+Proof. exact no_effect_before_last_check. Qed.
+
+(* every check passed: application commit, then exactly one database write, then the cache push, then the publications *)
+Theorem C03_accepted_trace_order : forall s b v x acc,
+  pv_trace s b v x true = (TAccepted, acc) ->
+  exists pubs, acc = [EAbiCommit (h_stateroot (b_header b));
+                      EDbWrite b (xe_post_cs x) (N.max (n_finalized s) (xe_post_precommit x)); ECachePush] ++ map EPublish pubs.
+Proof. exact accepted_trace_order. Qed.
+
+(* Chain.AddBlock returning the cache-push error: it is returned AFTER the application commit and the database write (the block is
+   durably appended although an error is reported; nothing is published).  Not a rule failure; unreachable while the cache
+   invariant of C04 holds (C04_cache_invariant). *)
+Theorem C03_cache_error_after_commit : forall s b v x acc,
+  pv_trace s b v x false = (TCommittedThenCacheError, acc) ->
+  acc = [EAbiCommit (h_stateroot (b_header b)); EDbWrite b (xe_post_cs x) (N.max (n_finalized s) (xe_post_precommit x))].
+Proof. exact cache_error_after_commit. Qed.
+
+(* the stage list is the step function: same verdict, and applying its effects gives the node of process_validated *)
+Theorem C03_trace_refines_process_validated : forall s b v x,
+  tip_header s <> None ->
+  let '(o, acc) := pv_trace s b v x true in
+  let '(o', s') := process_validated s b v x in
+  apply_effs s acc = s' /\
+  match o, o' with
+  | TAccepted, Accepted => True
+  | TRejected r, Rejected r' => r = r'
+  | _, _ => False
+  end.
+Proof. exact trace_refines_process_validated. Qed.
 
 (* ---- witnesses ---- *)
 Definition id (n : N) : bstr := mkB 32 n.
